@@ -174,7 +174,7 @@ Definition bfe_display (v : Z) : list Z :=
    `Digest::fmt`, change the right-hand side of `digest_elem_to_string` to one of them. *)
 Definition digest_elem_canonical (v : Z) : list Z := u64_to_string v.
 Definition digest_elem_nonneg (v : Z) : list Z := if P - 256 <=? v then u64_to_string v else bfe_display v.
-Definition digest_elem_to_string (v : Z) : list Z := bfe_display v.
+Definition digest_elem_to_string (v : Z) : list Z := digest_elem_canonical v.
 
 (* [String; 5]::join(",") *)
 Fixpoint join_comma (l : list (list Z)) : list Z :=
